@@ -49,13 +49,16 @@ def run_unit(unit, tier, known):
     with tempfile.NamedTemporaryFile("w", suffix=".json", delete=False) as f:
         json.dump(spec, f); specfile = f.name
     try:
-        rc, out, err = sh([VT, "-m", "pyvc.worker", "@" + specfile], timeout=unit.get("wall_s", 900) * (2 if tier == "thorough" else 1), env={"MDPAX_SRC": SRC, "PYTHONPATH": ROOT})
+        wall = unit.get("wall_s", 600) * (2 if tier == "thorough" else 1)
+        rc, out, err = sh([VT, "-m", "pyvc.worker", "@" + specfile], timeout=wall, env=dict({"MDPAX_SRC": SRC, "PYTHONPATH": ROOT, "PYVC_UNIT_DEADLINE_S": str(int(wall * 0.7))}, **({"PYVC_NO_DERIVE": "1"} if unit.get("no_derive") else {})))
     finally:
         os.unlink(specfile)
     if "@@REPORT@@" in out:
         rep = json.loads(out.split("@@REPORT@@", 1)[1].strip().splitlines()[0])
     else:
-        rep = {"target": unit["target"], "results": [], "error": f"worker rc={rc}: {err[-1500:]}"}
+        # a unit that exhausts its wall-clock budget is UNDECIDED (engine limitation -> bounded fallback), like any other Unsupported
+        if rc == 124: rep = {"target": unit["target"], "results": [], "error": f"Unsupported: the unit did not finish within its wall-clock budget of {wall} s (symbolic execution or solver blow-up)"}
+        else: rep = {"target": unit["target"], "results": [], "error": f"worker rc={rc}: {err[-1500:]}"}
     rep["unit"] = unit.get("id", unit["target"])
     return _ignore(unit, rep)
 
@@ -164,7 +167,7 @@ def main():
                 if not u or u.get("script") or rep.get("error"): continue
                 for cal in rep.get("contracts_applied", []):
                     if cal == u.get("target") or (u["id"], cal.split(".")[-1]) in props.INLINE_SKIP: continue
-                    pairs.append(dict(u, pop=list(u.get("pop", [])) + [cal], id=u["id"] + "|inline:" + cal.split(".")[-1], inline_of=(u["id"], cal)))
+                    pairs.append(dict(u, pop=list(u.get("pop", [])) + [cal], id=u["id"] + "|inline:" + cal.split(".")[-1], inline_of=(u["id"], cal), no_derive=True))
             with ThreadPoolExecutor(max_workers=16) as ex: ireps = list(ex.map(lambda u: run_unit(u, "quick", known_open), pairs))
             inline_stats = {"pairs": len(pairs), "skipped_not_inlinable": 0, "agree": 0, "refuted_when_inlined": []}
             proved_modular = {(rep["unit"], r["name"], r["path"].split("path")[0]) for rep in reps for r in rep["results"] if r["status"] == "proved"}
@@ -274,7 +277,7 @@ def main():
         # ---------------- verdict lines
         import replaylib
         # one replay per (obligation, scenario) -- run concurrently; harness failures: one line per distinct failing check
-        seen_v = set(); vv = []
+        seen_v = set(); vv = []; undecided_derived = []
         for r in violations:
             key = (r["name"], r["path"].split("path")[0])
             if key in seen_v: continue
@@ -282,7 +285,13 @@ def main():
         paths = [replaylib.write_replay(pid, r, SRC) for r in vv]
         with ThreadPoolExecutor(max_workers=8) as ex:
             verdicts = list(ex.map(lambda p_: replaylib.try_replay(pid, p_, SRC, hreps), paths))
-        for path, verdict in zip(paths, verdicts):
+        for path, verdict, r in zip(paths, verdicts, vv):
+            da = (r.get("meta") or {}).get("derived_attrs")
+            if verdict != "confirmed" and da and harnesses:
+                # the refutation rests on attribute values the engine derived from construction-time code (pyvc/derive.py) and did not replay on the
+                # real code: a model of the abstraction, not a demonstrated failure -> undecided, the property's run-time harness decides (bounded fallback)
+                fallback_units.append({"unit": r["unit"], "reason": f"refutation of {r['name']} depends on derived attribute(s) {da} and did not replay on the real code: undecided", "obligations": [r["name"]]})
+                undecided_derived.append(r); continue
             lines.append(f"VIOLATION property={pid} replay={path}" + ("" if verdict == "confirmed" else " no-failing-input-found")); code = 1
         seen_h = set()
         for fl in hviol:
@@ -327,6 +336,7 @@ def main():
                "callee_units_added_by_the_modularity_closure": closure_added,
                "inline_cross_check": inline_stats,
                "library_models_used": sorted({m for rep in reps for m in rep.get("lib_used", [])}),
+               "attributes_derived_from_construction_code": sorted({m for rep in reps for m in rep.get("derived_attributes", [])}),
                "repo_functions_symbolically_executed": sorted({m for rep in reps for m in rep.get("executed", [])}),
                "obligations_by_backend": dict(by_backend, **({"lean": n_lean} if P.get("lean") else {})),
                "solver_time_s": round(sum(r["secs"] for r in obligations + canaries), 3),
